@@ -77,7 +77,7 @@ func TestDnsAdversarial(t *testing.T) {
 			// the hung decoder keeps spinning (and possibly allocating) in its goroutine: stop here
 			w.Write(Ev{"summary": true, "evaluations": nEval, "resolver_runs": 0, "bad": bad, "stopped_on_hang": true})
 			w.Close()
-			os.Exit(0)
+			exitNow()
 		}
 	}
 	// a lookup runs under a real-time watchdog on top of its context: code that spins (and so never looks at its context)
